@@ -8,6 +8,9 @@ static iwdb_flags_t flags_of(const char *md) {
          | (md[2] == '1' ? IWDB_COMPOUND_KEYS : 0);
 }
 
+// mapping accessor that always refuses: _lx_sblk_cmp_key then reports through its rc that the cached prefix did not decide
+static iwrc no_mmap(struct IWFS_FSM *f, off_t off, uint8_t **mm, size_t *sp) { (void) f; (void) off; (void) mm; (void) sp; return IW_ERROR_INVALID_STATE; }
+
 int main(void) {
   static char line[1 << 20];
   char *tv[12];
@@ -60,6 +63,22 @@ int main(void) {
       struct iwkv_val key = { .data = kd, .size = lk, .compound = strtoll(tv[5], 0, 10) };
       printf("%d %d\n", sgn(_cmp_keys(fl, v1, (int) l1, &key)), sgn(_cmp_keys_prefix(fl, v1, (int) l1, &key)));
       free(v1); free(kd);
+    } else if (!strcmp(tv[0], "sblkcmp") && n >= 6) {
+      // sblkcmp <mode> <cached prefix> <full flag> <key data> <compound>: _lx_sblk_cmp_key on a node carrying that prefix
+      static struct iwkv kv_; static struct iwdb db_; static struct iwlctx lx_; static struct sblk sb_;
+      uint8_t *lk, *kd; size_t ll = unhex(tv[2], &lk), lk2 = unhex(tv[4], &kd);
+      struct iwkv_val key = { .data = kd, .size = lk2, .compound = strtoll(tv[5], 0, 10) };
+      memset(&kv_, 0, sizeof(kv_)); memset(&db_, 0, sizeof(db_)); memset(&lx_, 0, sizeof(lx_)); memset(&sb_, 0, sizeof(sb_));
+      kv_.fsm.acquire_mmap = no_mmap;
+      db_.iwkv = &kv_; db_.dbflg = flags_of(tv[1]);
+      lx_.db = &db_; lx_.key = &key;
+      sb_.db = &db_; sb_.pnum = 1; sb_.flags = atoi(tv[3]) ? SBLK_FULL_LKEY : 0;
+      if (ll > sizeof(sb_.lk)) ll = sizeof(sb_.lk);
+      memcpy(sb_.lk, lk, ll); sb_.lkl = (uint8_t) ll;
+      int res = 7;
+      iwrc rc = _lx_sblk_cmp_key(&lx_, &sb_, &res);
+      if (rc == IW_ERROR_INVALID_STATE) printf("NONE\n"); else if (rc) printf("ERR\n"); else printf("%d\n", sgn(res));
+      free(lk); free(kd);
     } else if (!strcmp(tv[0], "afcmp")) {
       uint8_t *a, *b; size_t la = unhex(tv[2], &a), lb = unhex(tv[3], &b);
       printf("%d\n", sgn(iwafcmp((char*) a, (int) la, (char*) b, (int) lb)));
